@@ -447,6 +447,10 @@ func (n *Nodis) Rename(key, dstKey string) error {
 		if !meta.isOk() {
 			return errors.New("key not exists")
 		}
+		if key == dstKey {
+			// renaming a key to itself changes nothing
+			return nil
+		}
 		dstMeta := tx.writeKey(dstKey, nil)
 		tx.delKey(key)
 		if !dstMeta.isOk() {
